@@ -439,3 +439,112 @@ groups.register_probes("C19", PROBES_C19)
 PROBES_C19 += [
     ("parse-negative-zero", "[1 / JSON.parse('-0'), 1 / JSON.parse('[-0]')[0], 1 / JSON.parse('0'), 1 / JSON.parse('-0.0')].join()", "-Infinity,-Infinity,Infinity,-Infinity"),
 ]
+
+
+# ---- bounded: the replacer, indent and reviver arguments (25.5.2 / 25.5.1) ----------------------------------------------------
+def es_stringify_full(v, gap="", allow=None, repl=None, key="", indent=""):
+    """SerializeJSONProperty with a gap, a PropertyList and a replacer given as a Python function (key, value) -> value"""
+    if repl is not None:
+        v = repl(key, v)
+    if v == UNDEF or v == FUNC:
+        return None
+    if v is None or v is True or v is False or isinstance(v, (int, float, str)):
+        return es_stringify(v)
+    inner = indent + gap
+
+    def layout(o, parts, c):
+        if not parts:
+            return o + c
+        if not gap:
+            return o + ",".join(parts) + c
+        return o + "\n" + inner + (",\n" + inner).join(parts) + "\n" + indent + c
+    if isinstance(v, list):
+        return layout("[", [es_stringify_full(x, gap, allow, repl, str(i), inner) or "null" for i, x in enumerate(v)], "]")
+    parts = []
+    for k in ([k for k in allow if k in v] if allow is not None else list(v)):
+        t = es_stringify_full(v[k], gap, allow, repl, k, inner)
+        if t is not None:
+            parts.append(quote(k) + (": " if gap else ":") + t)
+    return layout("{", parts, "}")
+
+
+def _json_args_chunk(args):
+    import random
+    from microjs import Context
+    seed, n = args
+    r = random.Random(seed)
+    c = Context(time_limit=30)
+    bad = []
+    cnt = 0
+    gaps = [("undefined", ""), ("0", ""), ("1", " "), ("2", "  "), ("4", "    "), ("10", " " * 10), ("25", " " * 10), ("-3", ""), ("2.9", "  "), ("'\\t'", "\t"), ("'--'", "--"), ("'abcdefghijklmno'", "abcdefghij"), ("''", ""),
+            ("null", ""), ("undefined", ""), ("true", ""), ("NaN", ""), ("({})", "")]
+    repls = [
+        ("function (k, v) { return typeof v === 'number' ? v * 2 : v }", lambda k, v: v * 2 if isinstance(v, (int, float)) and not isinstance(v, bool) else v),
+        ("function (k, v) { return k === 'a' ? undefined : v }", lambda k, v: UNDEF if k == "a" else v),
+        ("function (k, v) { return typeof v === 'string' ? v + '!' : v }", lambda k, v: v + "!" if isinstance(v, str) else v),
+        ("function (k, v) { return k === '0' ? 'first' : v }", lambda k, v: "first" if k == "0" else v),
+        ("function (k, v) { return v === null ? 0 : v }", lambda k, v: 0 if v is None else v),
+    ]
+    for i in range(n):
+        v = gen_value(r, 3, allow_undef=True)
+        lit = js_literal(v)
+        gj, gap = r.choice(gaps)
+        mode = r.randrange(3)
+        if mode == 0:
+            src, want = f"JSON.stringify({lit}, null, {gj})", es_stringify_full(v, gap)
+        elif mode == 1:
+            keys = r.sample(["a", "b", "c", "k", "0", "1", "zz", "a"], r.randint(0, 5))
+            kl = "[" + ", ".join((k if k.isdigit() and r.random() < 0.5 else repr(k)) for k in keys) + "]"
+            allow = []
+            for k in keys:
+                if k not in allow:
+                    allow.append(k)
+            src, want = f"JSON.stringify({lit}, {kl}, {gj})", es_stringify_full(v, gap, allow=allow)
+        else:
+            fj, fp = r.choice(repls)
+            src, want = f"JSON.stringify({lit}, {fj}, {gj})", es_stringify_full(v, gap, repl=fp)
+        cnt += 1
+        try:
+            got = c.eval(src)
+        except BaseException as e:  # noqa
+            got = f"!{type(e).__name__}: {e}"[:100]
+            c = Context(time_limit=30)
+        if got != want and len(bad) < 3:
+            bad.append((src, got, want))
+    return cnt, bad
+
+
+@groups.group(id="C19.bounded.arguments", prop="C19", kind="B", functions=["microjs.context:Context._create_json_object.<stringify_fn>", "microjs.context:Context._create_json_object.<parse_fn>"])
+def c19_arguments(tier="quick", seed=0):
+    """JSON.stringify(value, replacer, space) over generated values with every kind of space (numbers clamped to 10, strings cut
+    to 10, anything else ignored), key lists (order of the list, duplicates dropped, numbers as keys) and replacer functions,
+    against SerializeJSONProperty; JSON.parse(text, reviver): order of the calls, holder as this, undefined deletes"""
+    import multiprocessing as mp
+    from microjs import Context
+    n = 150 if tier == "quick" else 4000
+    with mp.get_context("fork").Pool(8) as pool:
+        rs = pool.map(_json_args_chunk, [(seed * 977 + i, n) for i in range(8)])
+    bad = [b for _, bs in rs for b in bs]
+    tot = sum(k for k, _ in rs)
+    out = [ob("C19.bounded.arguments.stringify", not bad, "B", f"{tot} (value, replacer, space) cases" if not bad else f"{bad[0][0][:160]} -> {bad[0][1]!r}, ECMAScript {bad[0][2]!r}",
+              witness=(bad[0][0] if bad else None), confirmed=True if bad else None, domain=tot)]
+    revs = [
+        ("JSON.stringify(JSON.parse('[1,2,{\"a\":3}]', function (k, v) { return typeof v === 'number' ? v + 1 : v }))", '[2,3,{"a":4}]'),
+        ("JSON.stringify(JSON.parse('{\"a\":1,\"b\":2}', function (k, v) { return k === 'a' ? undefined : v }))", '{"b":2}'),
+        ("var ks = []; JSON.parse('{\"a\":[1,2],\"b\":{\"c\":3}}', function (k, v) { ks.push(k); return v }); ks.join()", "0,1,a,c,b,"),
+        ("JSON.parse('1', function (k, v) { return v + 1 })", 2),
+        ("JSON.stringify(JSON.parse('[1,2]', function (k, v) { return k === '0' ? undefined : v }))", "[null,2]"),
+        ("JSON.stringify(JSON.parse('{\"a\":1}', 5))", '{"a":1}'),
+        ("var hs = []; JSON.parse('{\"a\":{\"b\":1}}', function (k, v) { hs.push(k + ':' + (typeof this) + ':' + (this[k] === v)); return v }); hs.join()", "b:object:true,a:object:true,:object:true"),
+        ("JSON.stringify(JSON.parse('{\"a\":1,\"b\":[1,{\"c\":2}]}', function (k, v) { return Array.isArray(v) ? v.length : v }))", '{"a":1,"b":2}'),
+        ("var r; try { JSON.parse('[1]', function () { throw new RangeError('stop') }) } catch (e) { r = e.name + e.message } r", "RangeErrorstop"),
+        ("var ks = []; JSON.stringify({a: {b: 1}, c: [2]}, function (k, v) { ks.push(k + ':' + (this[k] === v)); return v }); ks.join()", ":true,a:true,b:true,c:true,0:true"),
+        ("JSON.stringify({a: {toJSON: function () { return 7 }}}, function (k, v) { return v === 7 ? 'seven' : v })", '{"a":"seven"}'),
+    ]
+    for i, (src, want) in enumerate(revs):
+        try:
+            got = Context(time_limit=10).eval(src)
+        except BaseException as e:  # noqa
+            got = f"!{type(e).__name__}: {e}"[:100]
+        out.append(ob(f"C19.bounded.arguments.case-{i:02d}", got == want, "B", f"{src[:100]} => {got!r}" + ("" if got == want else f" (ES: {want!r})"), witness=None if got == want else src, confirmed=None if got == want else True, domain=1))
+    return out
